@@ -240,7 +240,7 @@ func rulePanic(p *Prog, r *Result) {
 	a := &panicAudit{p, r}
 	fns := p.reachableRepoFuncs()
 	r.Count("reachable_functions", len(fns))
-	nAssert, nExplicit, nDiv, nIdx := 0, 0, 0, 0
+	nAssert, nExplicit, nDiv, nIdx, nLib := 0, 0, 0, 0, 0
 
 	// positions of every index/slice instruction, for matching the compiler's list
 	type idxInstr struct {
@@ -320,6 +320,32 @@ func rulePanic(p *Prog, r *Result) {
 							r.Fail("C08.panic", fmt.Sprintf("%s / make with size %s", p.FuncName(fn), describeValue(p, sz)), p.InstrPos(in), "make with a size that is not known to be non-negative (a negative size is a run-time panic): "+why)
 						}
 					}
+				case *ssa.Call:
+					// library calls with a panicking precondition on an index
+					sc := x.Common().StaticCallee()
+					if sc == nil || sc.String() != "(*golang.org/x/exp/utf8string.String).At" || len(x.Common().Args) != 2 {
+						continue
+					}
+					nLib++
+					recv, idx := x.Common().Args[0], x.Common().Args[1]
+					key := fmt.Sprintf("%s / utf8string.At(%s)", p.FuncName(fn), describeValue(p, idx))
+					k, isK := constInt(idx)
+					if !isK || k < 0 {
+						r.Fail("C08.panic", key, p.InstrPos(in), "rune index that is not a non-negative constant: At panics outside [0, RuneCount())")
+						continue
+					}
+					if ok, why := a.sizeGuard(fn, in.Block(), func(v ssa.Value) bool {
+						c, ok := v.(*ssa.Call)
+						if !ok {
+							return false
+						}
+						sc2 := c.Common().StaticCallee()
+						return sc2 != nil && sc2.String() == "(*golang.org/x/exp/utf8string.String).RuneCount" && c.Common().Args[0] == recv
+					}, k+1); ok {
+						r.OK("C08.panic", key, p.InstrPos(in), strings.Replace(why, "len", "RuneCount()", 1))
+					} else {
+						r.Fail("C08.panic", key, p.InstrPos(in), fmt.Sprintf("At(%d) panics on a string of fewer than %d runes and no dominating RuneCount() test guarantees that many", k, k+1))
+					}
 				case *ssa.MapUpdate:
 					if isNilConst(x.Map, map[ssa.Value]bool{}) {
 						r.Fail("C08.panic", p.FuncName(fn)+" / write to nil map", p.InstrPos(in), "map assignment on a map that may be the nil constant")
@@ -374,6 +400,7 @@ func rulePanic(p *Prog, r *Result) {
 	r.Count("index_slice_instructions", nIdx)
 	r.Count("bounds_checks_unproven_by_compiler", nUnproven)
 	r.Count("explicit_panics", nExplicit)
+	r.Count("library_index_calls", nLib)
 	r.Count("integer_divisions", nDiv)
 	r.Floor("C08.panic", "index/slice instructions examined", nIdx, 20)
 	r.Floor("C08.panic", "reachable functions", len(fns), 150)
@@ -828,6 +855,19 @@ func (p *Prog) regexpPattern(v ssa.Value) (string, bool) {
 // len(base) >= need.
 func (a *panicAudit) lenGuard(fn *ssa.Function, at *ssa.BasicBlock, base ssa.Value, need int64) (bool, string) {
 	bp := accessPath(base)
+	return a.sizeGuard(fn, at, func(v ssa.Value) bool {
+		c, ok := v.(*ssa.Call)
+		if !ok {
+			return false
+		}
+		bi, ok := c.Common().Value.(*ssa.Builtin)
+		return ok && bi.Name() == "len" && accessPath(c.Common().Args[0]) == bp && bp != ""
+	}, need)
+}
+
+// sizeGuard: a dominating If compares a value accepted by lenOf (the size of the thing accessed) with a constant
+// such that, on the side that can reach the access, size >= need.
+func (a *panicAudit) sizeGuard(fn *ssa.Function, at *ssa.BasicBlock, lenOf func(ssa.Value) bool, need int64) (bool, string) {
 	for _, b := range fn.Blocks {
 		iff, ok := b.Instrs[len(b.Instrs)-1].(*ssa.If)
 		if !ok || !b.Dominates(at) {
@@ -836,14 +876,6 @@ func (a *panicAudit) lenGuard(fn *ssa.Function, at *ssa.BasicBlock, base ssa.Val
 		bo, ok := iff.Cond.(*ssa.BinOp)
 		if !ok {
 			continue
-		}
-		lenOf := func(v ssa.Value) bool {
-			c, ok := v.(*ssa.Call)
-			if !ok {
-				return false
-			}
-			bi, ok := c.Common().Value.(*ssa.Builtin)
-			return ok && bi.Name() == "len" && accessPath(c.Common().Args[0]) == bp && bp != ""
 		}
 		if !lenOf(bo.X) {
 			continue
